@@ -78,12 +78,26 @@ OpSetSilent(b) == Step("set_silent", <<b>>, b, r, b)                      \* lib
 \* History of the debug stream: "clean", or one earlier write on it failed (full non-blocking pipe, EAGAIN) and the stream
 \* works again.  S: the gates are the two levels and the silent flag - nothing else; so the outcome is the same.
 Histories == {"clean", "after_failed_write"}
-OpExecute(m, h) == \E o \in Outcomes(d, r, silent, m) : Step("execute", <<m, h>>, o, r, silent)
+\* Statement context: every macro of the family is a STATEMENT and must behave as one wherever a statement may stand.
+\*   alone / braced           - the plain outcome
+\*   then_true / then_false   - the unbraced then-arm of  "if (c) M; else E;" : with c true M behaves as alone and E is not
+\*                              executed; with c false M is not executed at all (no output, no evaluation) and E IS executed
+\*   loop2                    - the unbraced body of a loop with two iterations: twice the evaluations unless M leaves the function
+\* (printers are functions: context is irrelevant, "alone" only).  els = the else arm E was executed.
+Contexts == {"alone", "braced", "then_true", "then_false", "loop2"}
+InContext(o, c) ==
+    IF c = "then_false" THEN [out |-> "none", eval |-> 0, ctl |-> "falls", els |-> TRUE]
+    ELSE [out |-> o.out, eval |-> IF c = "loop2" /\ o.ctl = "falls" THEN 2 * o.eval ELSE o.eval, ctl |-> o.ctl, els |-> FALSE]
+\* The length of the message is NOT a parameter of the rule: a live statement prints its message complete, whatever its length
+\* (checks/c20.py sweeps message lengths around 8..8192, BUFSIZ and beyond against these same outcomes).
+OpExecute(m, h, c) ==
+    /\ (c = "alone" \/ (h = "clean" /\ m \notin Printers))
+    /\ \E o \in Outcomes(d, r, silent, m) : Step("execute", <<m, h, c>>, InContext(o, c), r, silent)
 
 Init == d \in CompileLevels /\ r = 0 /\ silent = FALSE                    \* a program starts at level 0, not silenced
 Next == \/ \E n \in RunLevels : OpSetLevel(n)
         \/ \E b \in BOOLEAN : OpSetSilent(b)
-        \/ \E m \in Macros, h \in Histories : OpExecute(m, h)
+        \/ \E m \in Macros, h \in Histories, c \in Contexts : OpExecute(m, h, c)
 Spec == Init /\ [][Next]_vars
 
 -------------------------------------------------------------------------------
@@ -105,6 +119,11 @@ CompiledOut == d = 0 => /\ \A m \in Gated \cup AssertHold \cup AssertFail : All(
 AssertStops == d >= 1 => \A m \in AssertFail : \A o \in All(m) : o.ctl = (IF r = 0 THEN "returns" ELSE "exits")
 RequireNeverFatal == \A m \in RequireHold \cup RequireFail : \A o \in All(m) : o.ctl # "exits" /\ o.out \in {"none", "debug"}
 HoldingIsQuiet == \A m \in AssertHold \cup RequireHold : \A o \in All(m) : o.out = "none" /\ o.ctl = "falls"
+\* S: "neither evaluates its arguments otherwise" holds in every statement context; an else arm belongs to the programmer's if
+ContextLaw == \A m \in Macros \ Printers : \A o \in All(m) :
+                 /\ InContext(o, "then_false").els /\ InContext(o, "then_false").eval = 0
+                 /\ ~InContext(o, "then_true").els /\ InContext(o, "then_true").eval = o.eval
+                 /\ InContext(o, "braced") = InContext(o, "alone")
 \* the compile-time level is a constant of a build
 BuildConstant == [][d' = d]_vars
 ================================================================================
